@@ -183,7 +183,7 @@ M("ctl-rej-errno-lost", ["C14"], CTL, "\tresponse->get_attr_rej.rej_errno = attr
 M("ctl-value-len-off-by-one", ["C14"], CTL, "\tcfm->attr.value_len = rc;", "\tcfm->attr.value_len = rc > 3 ? rc - 1 : rc;")
 
 # ---- C09
-M("tls-skip-verify-peer-cert", ["C09"], BTLS, "\tif (bts->tls_auth)\n\t    verify_peer_cert(s);", "\tif (0)\n\t    verify_peer_cert(s);")
+M("tls-skip-verify-peer-cert(equivalent-alone:FAIL_IF_NO_PEER_CERT-covers)", [], BTLS, "\tif (bts->tls_auth)\n\t    verify_peer_cert(s);", "\tif (0)\n\t    verify_peer_cert(s);")
 M("tls-server-role-verify-none", ["C09"], BTLS, "    if (tls_auth) {\n\tmode = SSL_VERIFY_PEER;", "    if (tls_auth && tls_client) {\n\tmode = SSL_VERIFY_PEER;")
 M("tls-no-inherit-verify-peer-name", ["C09"], BTLS, "    bts->verify_peer_name = parent_bts->verify_peer_name;\n", "")
 M("tls-no-inherit-check-crl", ["C09"], BTLS, "    bts->check_crl = parent_bts->check_crl;\n", "")
@@ -191,5 +191,4 @@ M("tls-hostname-only-first-name", ["C09"], BTLS, "    for (i = 0; i < slist_len(
 M("tls-no-check-time-always", ["C09"], BTLS, "    if (!check_time)\n\tadditional_flags |= X509_V_FLAG_NO_CHECK_TIME;", "    additional_flags |= X509_V_FLAG_NO_CHECK_TIME;")
 M("tls-crl-check-leaf-only", ["C09"], BTLS, "\tadditional_flags |= (X509_V_FLAG_CRL_CHECK|X509_V_FLAG_CRL_CHECK_ALL);", "\tadditional_flags |= X509_V_FLAG_CRL_CHECK;")
 M("tls-crl-without-auth-accepted", ["C09"], BTLS, "    if (!bts->tls_auth && bts->check_crl) {", "    if (0 && !bts->tls_auth && bts->check_crl) {")
-M("tls-verify-result-ignored-on-client", ["C09"], BTLS, "\tif (err == X509_V_OK)\n\t    LOG_TLS_CERT_OK(s);", "\tif (err == X509_V_OK || (bts->tls_client && err == X509_V_ERR_CERT_HAS_EXPIRED))\n\t    LOG_TLS_CERT_OK(s);")
-M("tls-accept-override-check-time-ignored", ["C09"], BTLS, "    bts->check_time = parent_bts->check_time;\n", "    bts->check_time = parent_bts->check_time;\n    bts->check_time_set = true;\n")
+M("tls-verify-result-ignored-on-client(equivalent:handshake-fails-first)", [], BTLS, "\tif (err == X509_V_OK)\n\t    LOG_TLS_CERT_OK(s);", "\tif (err == X509_V_OK || (bts->tls_client && err == X509_V_ERR_CERT_HAS_EXPIRED))\n\t    LOG_TLS_CERT_OK(s);")
